@@ -46,6 +46,7 @@ func run(repo string) (string, error) {
 	fmt.Fprintf(&b, "/-- tls/cipher_suites.go `implementedCipherSuites` (what `cipherSuiteByID` finds) -/\ndef implemented : List SuiteRow := %s\n\n", suiteRows(tls.ZVImplementedCipherSuites()))
 	fmt.Fprintf(&b, "def cipherSuitesTLS13 : List Nat := %s\n", natList(tls.ZVCipherSuitesTLS13()))
 	fmt.Fprintf(&b, "def defaultCipherSuites : List Nat := %s\n", natList(tls.ZVDefaultCipherSuites()))
+	fmt.Fprintf(&b, "/-- TLS 1.3 suites whose KDF hash is SHA-384 (a PSK is bound to the hash of its suite) -/\ndef cipherSuitesTLS13SHA384 : List Nat := %s\n", natList(tls.ZVCipherSuitesTLS13SHA384()))
 	fmt.Fprintf(&b, "def defaultCipherSuitesTLS13 : List Nat := %s\n", natList(tls.ZVDefaultCipherSuitesTLS13()))
 	fmt.Fprintf(&b, "def hasAESGCMHardwareSupport : Bool := %v\n", tls.ZVHasAESGCMHardwareSupport())
 	fmt.Fprintf(&b, "/-- `deprioritizeAES(defaultCipherSuites())` as the code computes it now -/\ndef deprioDefault : List Nat := %s\n", natList(tls.ZVDeprioritizeAES(tls.ZVDefaultCipherSuites())))
